@@ -134,10 +134,13 @@ VarStates(t, d) ==
   (IF t = "NStr" THEN {} ELSE {[st |-> "absent", j |-> Omit, hasd |-> FALSE, dv |-> Omit],
                                [st |-> "null", j |-> Omit, hasd |-> FALSE, dv |-> Omit]})
   \cup {[st |-> "val", j |-> JPool(t)[i], hasd |-> FALSE, dv |-> Omit] : i \in 1..Width(JPool(t), d)}
-  \cup (IF DefaultLit(t).k = "omit" \/ d < MaxDepth THEN {}
+  \* a variable WITH A DEFAULT: omitted by the client (the default applies, also when the variable sits inside a list or
+  \* input object literal), explicit null / a value (the default does not apply; top level only to bound the state space)
+  \cup (IF DefaultLit(t).k = "omit" THEN {}
         ELSE {[st |-> "absent", j |-> Omit, hasd |-> TRUE, dv |-> DefaultLit(t)]}
-             \cup (IF t = "NStr" THEN {} ELSE {[st |-> "null", j |-> Omit, hasd |-> TRUE, dv |-> DefaultLit(t)],
-                                               [st |-> "val", j |-> JPool(t)[1], hasd |-> TRUE, dv |-> DefaultLit(t)]}))
+             \cup (IF t = "NStr" \/ d < MaxDepth THEN {}
+                   ELSE {[st |-> "null", j |-> Omit, hasd |-> TRUE, dv |-> DefaultLit(t)],
+                         [st |-> "val", j |-> JPool(t)[1], hasd |-> TRUE, dv |-> DefaultLit(t)]}))
 \* String! position: a variable with a default may be declared String, otherwise it must be String!
 DeclTy(t, vs) == IF t = "NStr" /\ vs.hasd THEN "String" ELSE t
 
